@@ -65,7 +65,7 @@ func configsBase(tier string) []xplore.Config {
 		bound, maxLen = 5, 3
 	}
 	closes := []int{-1, 0, 1, 2, 3, 99}
-	for _, sc := range seqsOf([]string{"err", "nil", "n2err", "park"}, maxLen) {
+	for _, sc := range seqsOf([]string{"err", "nil", "n2err", "park", "parknil"}, maxLen) {
 		for _, c := range closes {
 			out = append(out, xplore.Config{Name: fmt.Sprintf("a: reconnect over scripted client attempts=%v closeAtRound=%d", sc, c), Bound: bound, Data: cfgData{part: "a", attempts: sc, closeAt: c}})
 		}
@@ -122,7 +122,13 @@ func (c *scriptClient) Subscribe(ctx context.Context, q client.Query, _ ...strin
 	i := c.n
 	c.n++
 	c.tr.add("attempt#%d", i)
-	defer c.tr.add("end#%d", i)
+	defer func() {
+		if ctx.Err() != nil {
+			c.tr.add("end#%d/cancelled", i) // the attempt ended with its context already cancelled
+		} else {
+			c.tr.add("end#%d", i)
+		}
+	}()
 	kind := "park"
 	if i < len(c.script) {
 		kind = c.script[i]
@@ -148,9 +154,15 @@ func (c *scriptClient) Subscribe(ctx context.Context, q client.Query, _ ...strin
 	switch vrt.Select(false, vrt.R(ctx.Done()), vrt.R(c.closeC)) {
 	case 0:
 		vrt.RecvNow(ctx.Done())
+		if kind == "parknil" {
+			return nil // the stream ends cleanly once the client goes away
+		}
 		return ctx.Err()
 	default:
 		vrt.RecvNow(c.closeC)
+		if kind == "parknil" {
+			return nil
+		}
 		return errors.New("closed")
 	}
 }
@@ -407,6 +419,7 @@ func checkTrace(d cfgData, tr *tracer, viol func(class, format string, a ...inte
 	// per ended attempt exactly one DISCONNECT, RESET before each retry
 	state := "start" // start -> inattempt -> ended -> disconnected -> reset -> inattempt ...
 	afterClosed := 0
+	cancelledEnd := false
 	closedSeen := false
 	connectedThisConn := false
 	lastN := map[string]bool{}
@@ -414,6 +427,10 @@ func checkTrace(d cfgData, tr *tracer, viol func(class, format string, a ...inte
 	for i, e := range tr.ev {
 		switch {
 		case strings.HasPrefix(e, "attempt#"):
+			if cancelledEnd {
+				viol("retried-after-cancel", "event %d: an attempt ended with its context already cancelled (the client was closed), yet Subscribe backed off and retried instead of returning; trace: %s", i, tr)
+				return
+			}
 			if state != "start" && state != "reset" {
 				viol("retry-without-reset", "event %d: inner Subscribe retried in state %s (the reset callback must precede every retry); trace: %s", i, state, tr)
 				return
@@ -421,6 +438,9 @@ func checkTrace(d cfgData, tr *tracer, viol func(class, format string, a ...inte
 			state = "inattempt"
 		case strings.HasPrefix(e, "end#"):
 			state = "ended"
+			if strings.HasSuffix(e, "/cancelled") {
+				cancelledEnd = true
+			}
 		case strings.HasPrefix(e, "conn#"), strings.HasPrefix(e, "dialfail#"):
 			// part b: the inner Subscribe call boundaries are not visible; model them
 			if state == "start" || state == "reset" {
